@@ -68,6 +68,12 @@ KINDS = {
     "struct_nested_defaults": (ref("PD"), [{"b": "s"}, {}, {"a": 1}], [{"a": "s"}], False),
     "struct_renamed": (ref("PR"), [{"foo-bar": 1}], [{"foo_bar": 1}], False),
     "struct_flat": (ref("PF"), [{"x": 1}, {"x": 1, "k": "v"}], [{"x": 1, "k": 2}], False),
+    "struct_inline_defaults": ({"type": "object", "properties": {"a": {"type": "integer", "default": 7}, "b": {"type": "boolean", "default": True},
+                                                                "u": {"type": "integer", "format": "uint8", "minimum": 0, "default": 9}}},
+                               [{"a": 1}, {}, {"b": False, "u": 3}], [{"a": "s"}, 5], False),
+    "enum_inline_defaults": ({"oneOf": [{"type": "object", "properties": {"V": {"type": "object", "properties": {"flag": {"type": "boolean", "default": True}, "n": INT}}},
+                                         "required": ["V"], "additionalProperties": False}, {"type": "string", "enum": ["U"]}]},
+                             ["U", {"V": {"n": 1}}, {"V": {}}], ["Z", {"V": {"n": "s"}}], False),
     "enum_ext": (ref("Ext"), ["U", {"N": 1}, {"S": {"x": 1}}], ["Z", {"N": "s"}], False),
     "enum_int": (ref("Int"), [{"t": "A", "x": 1}, {"t": "B"}, {"t": "A", "x": 1, "y": "s"}], [{"t": "Z"}, {"t": "A"}], False),
     "enum_adj": (ref("Adj"), [{"t": "A", "c": 1}, {"t": "B", "c": "s"}], [{"t": "A", "c": "s"}], False),
@@ -80,7 +86,7 @@ KINDS = {
     "date": ({"type": "string", "format": "date"}, ["2020-02-29"], [], True),
 }
 QUICK_KINDS = ["bool", "u8", "i64", "nz32", "f64", "string", "str_max2", "str_enum", "opt_scalar", "opt_struct", "vec", "set", "map_int", "map_any",
-               "tuple1", "tuple2", "struct", "struct_nested_defaults", "struct_flat", "enum_ext", "enum_int", "typed_enum", "boxed", "unit", "uuid"]
+               "tuple1", "tuple2", "struct", "struct_nested_defaults", "struct_inline_defaults", "enum_inline_defaults", "struct_flat", "enum_ext", "enum_int", "typed_enum", "boxed", "unit", "uuid"]
 
 
 def with_default(schema, d):
